@@ -135,7 +135,7 @@ func damagesOf(c []byte, thorough bool, rng *RNG) []damage {
 				set[k] = true
 			}
 		}
-		for i := 0; i < 60; i++ {
+		for i := 0; i < 16; i++ {
 			set[int(rng.Next()%uint64(n))] = true
 		}
 		var ks []int
@@ -161,10 +161,10 @@ func damagesOf(c []byte, thorough bool, rng *RNG) []damage {
 		}
 	} else {
 		set := map[int]bool{}
-		for i := 0; i < 16 && i < n; i++ {
+		for i := 0; i < 6 && i < n; i++ {
 			set[i] = true
 		}
-		for i := n - 8; i < n; i++ {
+		for i := n - 5; i < n; i++ {
 			if i >= 0 {
 				set[i] = true
 			}
@@ -182,7 +182,7 @@ func damagesOf(c []byte, thorough bool, rng *RNG) []damage {
 				flip(i, b)
 			}
 		}
-		for k := 0; k < 120; k++ {
+		for k := 0; k < 40; k++ {
 			flip(int(rng.Next()%uint64(n)), int(rng.Next()%8))
 		}
 	}
@@ -199,7 +199,7 @@ func damagesOf(c []byte, thorough bool, rng *RNG) []damage {
 	// length-field attacks
 	fields := uvarintFields(c)
 	for fi, f := range fields {
-		if len(fields) > 40 && !thorough && fi >= 8 && fi < len(fields)-8 && rng.Next()%uint64(len(fields)) >= 24 {
+		if len(fields) > 40 && !thorough && fi >= 4 && fi < len(fields)-4 && rng.Next()%uint64(len(fields)) >= 8 {
 			continue // big files, quick tier: first and last fields plus a seeded sample
 		}
 		if len(fields) > 400 && thorough && fi >= 8 && fi < len(fields)-8 && rng.Next()%uint64(len(fields)) >= 200 {
@@ -252,6 +252,15 @@ func snapPostRun(r *Run, res *Result) {
 			snapOps = append(snapOps, op)
 			if len(op.Data) > 4096 {
 				big++
+				nd := 0
+				for _, si := range op.SnapInfo {
+					if si.Deleted > 0 {
+						nd++
+					}
+				}
+				if nd >= 8 {
+					res.Stats.Probes["snapshot-over-4096-bytes-with-many-deleted-bitmaps"]++
+				}
 			}
 		}
 	}
@@ -330,7 +339,7 @@ func snapPostRun(r *Run, res *Result) {
 			files := cloneFiles(after)
 			files[name] = d.data
 			for _, mm := range []bool{true, false} {
-				if !thorough && (di+len(ds))%2 == 0 == mm && len(ds) > 400 {
+				if !thorough && len(op.Data) > 700 && (di%2 == 0) == mm {
 					continue // quick tier on big files: alternate the loaders
 				}
 				loader := "mmap"
